@@ -31,8 +31,8 @@ ASSUMPTIONS = [
     "interleavings reached = delays at the listed schedule points + OS pre-emption at a 1 us switch interval",
     "a watchdog expiry is inconclusive, never a violation",
 ]
-MIN_EVALUATIONS = {"quick": 300, "thorough": 4000}
-MIN_NONTRIVIAL = {"quick": 150, "thorough": 2000}
+MIN_EVALUATIONS = {"quick": 300, "thorough": 2500}
+MIN_NONTRIVIAL = {"quick": 150, "thorough": 1500}
 REACH_FLOORS = {"runs_stopped": 50, "runs_interrupted": 50, "runs_delayed": 20, "runs_faulted": 10}
 SHARD_TIMEOUT = {"quick": 900, "thorough": 5400}
 
